@@ -70,15 +70,14 @@ def classify(e):
     import ZConfig
     if isinstance(e, ZConfig.ConfigurationError):
         return "config"
-    if type(e) is ValueError:
-        tb = e.__traceback__
-        last = None
-        for fs, _ in traceback.walk_tb(tb):
-            last = fs
-        if last is not None:
-            fn = last.f_code.co_filename.replace("\\", "/")
-            if fn.endswith("ZConfig/datatypes.py") or "/zcverif_dt/" in fn:
-                return "datatype"
+    # (Until round 11 a bare ValueError whose innermost frame lies in
+    # ZConfig/datatypes.py counted as "raised by a datatype function
+    # itself".  ZConfig turns every ValueError of a datatype into a
+    # configuration error - that is how a datatype says no - so a bare one
+    # that escapes was never passed through on purpose; since fix 7903072
+    # the repaired tree has no such place left, and the allowance hid a
+    # seeded change.  What does pass through unchanged - other exception
+    # classes - is checked by the family 'passthrough'.)
     return "internal"
 
 
@@ -462,6 +461,26 @@ def run_shard(ctx):
             report(ctx.res, "override", kinds,
                    {"model": p.model, "text": p.text, "overrides": specs,
                     "family": "override"}, cls, e)
+            if rng.random() < 0.15:
+                # a long list (9-40 specifiers), one of them mangled
+                many = list(specs)
+                while len(many) < rng.randint(9, 40):
+                    many.extend(overrides.gen_specs(rng, p.res, p.tree)[0])
+                i = rng.randrange(len(many))
+                many[i], kinds = mutate_string(rng, many[i],
+                                               rng.randint(1, 2))
+                many[i] = many[i].replace("\n", " ")
+                if rng.random() < 0.5:
+                    many[i] = rng.choice(["b ad/k=7", "a b/c/d=1", "(x)/k=v",
+                                          "1x/k=v", "é/k=v", "-/k=v",
+                                          "a//b=v", "/k=v", "a.b:c/k=v"])
+                ctx.res.evaluations += 1
+                ctx.res.count("long_override_lists")
+                cls, e = run_entry(lambda: ZConfig.loadConfigFile(
+                    p.schema, io.StringIO(p.text), overrides=many))
+                report(ctx.res, "override", kinds + ["long-list"],
+                       {"model": p.model, "text": p.text, "overrides": many,
+                        "family": "override"}, cls, e)
     dschema = cc.load_schema(c06.DEFINE_SCHEMA)
     d = os.path.join(ctx.tmp, "c07 incl é%41+x")
     # every hostile argument on its own, at top level and inside a section
@@ -600,6 +619,7 @@ def passthrough_cases(ctx, only=None):
                 except BaseException as e:  # noqa
                     got = e
                 raised = zcverif_dt.LAST_RAISED[0]
+                raised_args = zcverif_dt.LAST_RAISED_ARGS[0]
                 res.evaluations += 1
                 res.count("passthrough_cases")
                 res.sig("pass|%s|%s|%s" % (site, name, via))
@@ -619,6 +639,10 @@ def passthrough_cases(ctx, only=None):
                 elif got is not raised:
                     problem = "the datatype's %s did not pass through " \
                         "unchanged" % name
+                elif (got.args, str(got)) != raised_args:
+                    problem = "the datatype's %s came out with other " \
+                        "arguments: %r, was %r" % (name, got.args,
+                                                   raised_args[0])
                 else:
                     problem = None
                 if problem:
